@@ -295,6 +295,8 @@ class Translator:
                     key = [k for k, v in env.items() if isinstance(v, V) and v.ty == ("slice",)]
                     if key:
                         env[key[0]] = V(gname, ("slice",), 0, tmax("usize"))
+                elif src.endswith(".len()"):
+                    env[src[:-6]] = V(gname, ("slice",), 0, tmax("usize"))
                 elif src in env:
                     old = env[src]
                     env[src] = old.with_(code=gname)
@@ -315,7 +317,35 @@ class Translator:
             if not pos:
                 raise Untranslatable("no `let %s = ...;` in %s" % (mode[1], item.name))
             stmts = stmts[pos[0] + 1:]
-        if mode[0] == "index":
+        if mode[0] == "cond":
+            # the condition of the k-th top-level `if` statement; earlier `let`s are translated when they are
+            # inside the subset (reads of the data are not: the values they bind must be declared parameters)
+            seen, comp = 0, None
+            for st in stmts:
+                if st[0] == "expr" and st[1][0] == "if":
+                    seen += 1
+                    if seen == mode[1]:
+                        pre, c = self.expr(st[1][1], env, ctx, "bool")
+                        if c.ty != "bool":
+                            raise Untranslatable("condition is not a bool")
+                        ctx.rets.append(c)
+                        comp = wrap(pre, ("ret", c.code))
+                        break
+                elif st[0] == "lettuple":
+                    try:
+                        self.let_tuple(st, env, ctx)
+                    except Untranslatable:
+                        pass
+                elif st[0] == "let" and st[1] not in env:
+                    try:
+                        pre, v = self.expr(st[3], env, ctx)
+                        if not pre:
+                            env[st[1]] = v.with_(var=None)
+                    except Untranslatable:
+                        pass
+            if comp is None:
+                raise Untranslatable("no %d-th `if` statement in %s" % (mode[1], item.name))
+        elif mode[0] == "index":
             e = find_index(("block", stmts, tail), mode[1])
             if e is None:
                 raise Untranslatable("no index expression %s[..] in %s" % (mode[1], item.name))
@@ -495,6 +525,37 @@ class Translator:
             pre, v = self.expr(e, env, ctx)
             return wrap(pre, rest(env))
         raise Untranslatable("statement " + kind)
+
+    def let_tuple(self, st, env, ctx):
+        """let (a, b) = if c { (x, y) } else { (u, v) };  or  let (a, b) = (x, y);  with pure components"""
+        _, names, e = st
+        def comps(e, env):
+            if e[0] == "tuple" and len(e[1]) == len(names):
+                out = []
+                for x in e[1]:
+                    pre, v = self.expr(x, env, ctx)
+                    if pre:
+                        raise Untranslatable("tuple component may panic")
+                    out.append(v)
+                return out
+            if e[0] == "paren":
+                return comps(e[1], env)
+            if e[0] == "block" and not e[1] and e[2] is not None:
+                return comps(e[2], env)
+            if e[0] == "if" and e[3] is not None and not e[2][0] and not e[3][0]:
+                pre, c = self.expr(e[1], env, ctx, "bool")
+                if pre:
+                    raise Untranslatable("tuple condition may panic")
+                a, b = comps(e[2][1], env), comps(e[3][1], env)
+                out = []
+                for x, y in zip(a, b):
+                    x, y = self.unify(x, y)
+                    ty, lo, hi = self.join([x, y], None)
+                    out.append(V("(if %s then %s else %s)" % (c.code, x.code, y.code), ty, lo, hi))
+                return out
+            raise Untranslatable("tuple pattern with this initialiser")
+        for n, v in zip(names, comps(e, env)):
+            env[n] = v
 
     def lvalue(self, lhs, env):
         if lhs[0] == "path" and len(lhs[1]) == 1 and lhs[1][0] in env:
